@@ -49,6 +49,26 @@ example : surfaceFormula (-3/4) (2 / 4) (1/2) = -1/2 ∧ surfaceFormula (-1/2) (
 example : LayersWF Proofs.FromGeo.Ex.geo ∧ Proofs.FromGeo.Ex.l1 ∈ Proofs.FromGeo.Ex.geo.layers ∧
     0 < Proofs.FromGeo.Ex.colA.area := by decide +kernel
 
+/-- `find_surface` composed with the direction walk: for a column whose blocks form a vertical
+    line above the mapped bottom block, the new surface is the two-case formula applied to the
+    line's top block (its centre elevation, its volume over the column area) and twice its own
+    vertical distance — exactly the quantities `surface_recovery` is about. -/
+theorem find_surface_on_line (T : TGrid) (g : Geo) (mp : BlockMap) (maxVol : Rat) (col : Column)
+    (bottomLayer : Layer) (gn : Str) (bb : GBlock) (steps : List (GConn × GBlock))
+    (hbl : g.layerlist.getLast? = some bottomLayer)
+    (hgn : blockName g.convention bottomLayer.name col.name = .ok gn)
+    (hmp : mp.lookup gn = some bb.name) (hfb : findB T bb.name = .ok bb)
+    (hlen : steps.length ≤ T.blocks.length) (hok : volOk (some maxVol) bb = true)
+    (hline : isLine T 3 (some maxVol) none none bb steps = true)
+    (top : GBlock) (htop : (lineBlocks bb steps).getLast? = some top) (c : P3) (hc : top.centre = some c)
+    (hv : top.volume > 0) :
+    columnSurface T g mp maxVol col =
+      .ok (some (surfaceFormula c.z (top.volume / col.area)
+        (match (lineSizes none bb steps).getLast? with
+         | some t => t
+         | none => top.volume / col.area))) :=
+  columnSurface_line T g mp maxVol col bottomLayer gn bb steps hbl hgn hmp hfb hlen hok hline top htop c hc hv
+
 /-! ### spacings -/
 
 /-- For a direction with a single block, the spacing recovered as volume divided by the doubled
